@@ -35,6 +35,29 @@ Theorem C06_channel_reader : forall F, valid_file F -> forall ops c,
   seeks_land (chan_pcm F c) atr /\ failed_seeks_safe (chan_pcm F c) atr.
 Proof. exact c06_channels. Qed.
 
+(* A sample-based seek beyond the end of a seekable stream fails, and afterwards no data is
+   delivered and every polling call signals end of stream, until the next seek. *)
+Theorem C06_sample_seek_beyond_end : forall F, valid_file F -> forall ops,
+  Forall sop_ok (snd (sample_run F ops)) -> f_seekable F = true ->
+  forall pre r s o post, snd (sample_run F ops) = pre ++ (r, SSeek s, o) :: post ->
+    total_frames F < s ->
+    (exists e, o = OErr e) /\
+    (seek_free (map (abs_s F) post) ->
+       delivered (pcm F) (map (abs_s F) post) = [] /\
+       Forall (fun x => polls x = true -> eos x = true) (map (abs_s F) post)).
+Proof. exact c06_samples_beyond_end. Qed.
+
+Theorem C06_channel_seek_beyond_end : forall F, valid_file F -> forall ops c,
+  (c < N.to_nat (f_channels F))%nat ->
+  Forall cop_ok (snd (chan_run F ops)) -> f_seekable F = true ->
+  forall pre r s o post, snd (chan_run F ops) = pre ++ (r, CSeek s, o) :: post ->
+    total_frames F < s ->
+    (exists e, o = OErr e) /\
+    (seek_free (map (abs_c F c) post) ->
+       delivered (chan_pcm F c) (map (abs_c F c) post) = [] /\
+       Forall (fun x => polls x = true -> eos x = true) (map (abs_c F c) post)).
+Proof. exact c06_channels_beyond_end. Qed.
+
 (* The invariants: buffered data ++ data from the decoder position = data from the logical position. *)
 Theorem C06_byte_invariant : forall F, valid_file F -> forall ops,
   Forall bop_ok (snd (byte_run F ops)) ->
@@ -62,7 +85,7 @@ Proof. exact c06_chan_invariant. Qed.
 Example C06_nonvacuous_samples :
   valid_file (ex_file Repaired) /\ Forall sop_ok (snd (sample_run (ex_file Repaired) ex_seek_ops)) /\
   outs (snd (sample_run (ex_file Repaired) ex_seek_ops)) =
-    [OSamples [1; -1; 2; -2; 3]%Z; OUnit; OSamples [8; -8]%Z; OUnit; OSamples [3; -3]%Z; OUnit; OSamples [];
+    [OSamples (seg 0 5); OUnit; OSamples [8; -8]%Z; OUnit; OSamples (seg 28 2); OUnit; OSamples [];
      OErr EOther; OSamples []; OUnit; OItem (Some 1%Z)].
 Proof.
   split; [exact ex_file_valid|]. split; [forall_trace|].
@@ -71,33 +94,43 @@ Qed.
 
 Example C06_nonvacuous_bytes :
   Forall bop_ok (snd (byte_run (ex_file Repaired) ex_byte_ops)) /\
-  lenN (pcm_bytes (ex_file Repaired)) = 32 /\
+  lenN (pcm_bytes (ex_file Repaired)) = 128 /\ bseg 0 5 = [1; 0; 156; 255; 2] /\
   outs (snd (byte_run (ex_file Repaired) ex_byte_ops)) =
-    [OBytes [1; 0; 255; 255; 2]; OPos 28; OBytes [8; 0; 248; 255]; OPos 1; OBytes [0; 255; 255]; OPos 4;
-     OErr EEof; OBytes []; OPos 32; OBytes []; OErr EIo; OErr EIo].
+    [OBytes (bseg 0 5); OPos 124; OBytes [8; 0; 248; 255]; OPos 1; OBytes (bseg 1 3); OPos 4;
+     OErr EEof; OBytes []; OPos 128; OBytes []; OErr EIo; OErr EIo].
 Proof.
   split; [forall_trace|].
-  split; vm_compute; reflexivity.
+  repeat split; vm_compute; reflexivity.
 Qed.
 
 Example C06_nonvacuous_channels :
   Forall cop_ok (snd (chan_run (ex_file Repaired) ex_chan_ops)) /\
   outs (snd (chan_run (ex_file Repaired) ex_chan_ops)) =
-    [OChans [[1; 2; 3]; [-1; -2; -3]]%Z; OUnit; OChans [[3]; [-3]]%Z; OUnit; OChans [[8]; [-8]]%Z; OUnit;
-     OChans [[]; []]; OChans [[]; []]; OUnit; OChans [[5; 6]; [-5; -6]]%Z; OErr EOther; OChans [[]; []]].
+    [OChans (cseg 0 15); OUnit; OChans (cseg 14 1); OUnit; OChans [[8]; [-8]]%Z; OUnit;
+     OChans [[]; []]; OChans [[]; []]; OUnit; OChans (cseg 29 1); OErr EOther; OChans [[]; []]].
 Proof. split; [forall_trace|]. vm_compute. reflexivity. Qed.
 
 (* ---- the defects of the original revision, as computations on the model *)
-(* F-C06a: End(0) on a 32-byte stream answers 8 (the sample count) *)
+(* F-C06a: End(0) on a 128-byte stream answers 32 (the sample count) *)
 Example C06_orig_end_uses_sample_count :
-  outs (snd (byte_run (ex_file Orig) [BSeek (End_ 0); BFill])) = [OPos 8; OBytes [3; 0; 253; 255]] /\
-  outs (snd (byte_run (ex_file Repaired) [BSeek (End_ 0); BFill])) = [OPos 32; OBytes []].
+  outs (snd (byte_run (ex_file Orig) [BSeek (End_ 0); BFill])) = [OPos 32; OBytes (bseg 32 28)] /\
+  outs (snd (byte_run (ex_file Repaired) [BSeek (End_ 0); BFill])) = [OPos 128; OBytes []].
 Proof. split; vm_compute; reflexivity. Qed.
 
-(* F-C06b: after seek(7) the channel reader returns the frame decoded before the seek *)
+(* F-C06b: after seek(31) the channel reader returns the frame decoded before the seek *)
 Example C06_orig_channel_seek_stale :
-  outs (snd (chan_run (ex_file Orig) [CFill; CSeek 7; CFill])) =
-    [OChans [[1; 2; 3]; [-1; -2; -3]]%Z; OUnit; OChans [[2; 3]; [-2; -3]]%Z] /\
-  outs (snd (chan_run (ex_file Repaired) [CFill; CSeek 7; CFill])) =
-    [OChans [[1; 2; 3]; [-1; -2; -3]]%Z; OUnit; OChans [[8]; [-8]]%Z].
+  outs (snd (chan_run (ex_file Orig) [CFill; CSeek 31; CFill])) =
+    [OChans (cseg 0 15); OUnit; OChans (cseg 1 14)] /\
+  outs (snd (chan_run (ex_file Repaired) [CFill; CSeek 31; CFill])) =
+    [OChans (cseg 0 15); OUnit; OChans [[8]; [-8]]%Z].
+Proof. split; vm_compute; reflexivity. Qed.
+
+(* ---- surfaced by the model, not replayable on this 64-bit host: on a target with a 32-bit usize the
+   skip loop's `usize::try_from(desired_pos - new_pos).unwrap()` panics for a far-away target instead
+   of reporting the seek as beyond the end *)
+Example C06_usize32_far_seek_panics :
+  outs (snd (byte_run {| f_slots := ex_slots; f_channels := 2; f_bps := 16; f_total := Some 32; f_table := None;
+                         f_seekable := true; f_endian := LE; f_profile := Release; f_usize_bits := 32;
+                         f_rev := Repaired |} [BSeek (Start 1099511627776)])) = [OPanic PUnwrap] /\
+  outs (snd (byte_run (ex_file Repaired) [BSeek (Start 1099511627776)])) = [OErr EEof].
 Proof. split; vm_compute; reflexivity. Qed.
